@@ -17,6 +17,8 @@ for dp, dn, fs in os.walk(os.path.join(root, "happysimulator")):
             p = os.path.join(dp, f)
             rel = os.path.relpath(p, root).replace(os.sep, "/")
             tree = ast.parse(open(p, encoding="utf-8").read())
+            from hsverif import normalize
+            normalize.canonical_forms(tree)  # the reference is recorded in the same canonical form the analysed tree is put into
             rec = localnames.record(tree)
             if rec:
                 out[rel] = rec
